@@ -12,6 +12,8 @@
     T <portable> <names> <arg>*                   set/syntax.rs `parse`
     H <names> <argv0> <arg>*                      startup/args.rs `parse` (the shell's own command line)
     K <portable> <sigterm> <names> <arg>*         kill/syntax.rs `parse`
+    U <names> <init> <params0> <arg>*             `set arg…` run in a shell: set.rs `main` (<init> = `name.bit;…` for every option,
+                                                  <params0> = `_` or comma-separated positional parameters)
   <names> = `_` or comma-separated answers of yash_env::option / Signals::str2sig:
             s:<char>:<opt>:<state>  l:<raw>:N|A|<opt>:<state>  o:<opt>:<modifiable>:<portable short c.state|~>:<portable long n.state|~>  g:<NAME>:<number>
   <mode>  = three bits: long_option_names, extension_options, option_arguments_in_same_field
@@ -25,6 +27,8 @@ import YashModel.Args.Getopts
 import YashModel.Args.GetoptsHistory
 import YashModel.Args.Bespoke
 import YashModel.Args.BespokeSpec
+import YashModel.Args.SetMain
+import YashModel.Args.SetSpec
 import YashModel.Args.OptionNames
 import YashModel.Generated.OptionNames
 open YashModel YashModel.Args YashModel.Proto
@@ -278,6 +282,27 @@ def withModelLong (nm : Bespoke.Names) (extra : List (Char × Bool)) (args : Lis
           | .noSuch => .noSuch
           | .ambiguous => .ambiguous) }
 
+/-- The answers of `parse_short`, `is_modifiable`, `portable_short_name`, `portable_long_name` are NOT taken from
+    the harness either: they come from the tables re-extracted from yash-env/src/option.rs (`Bespoke.tableNames`);
+    only `str2sig` (kill) is still the harness's. -/
+def withModelTables (nm : Bespoke.Names) (extra : List (Char × Bool)) (args : List (List Char)) : Bespoke.Names :=
+  { Bespoke.tableNames (withModelLong nm extra args).long with sig := nm.sig }
+
+open YashModel.Args.Bespoke in
+def showSetResult (init : OptStates) (r : SetResult) : String :=
+  let out := match r.out with
+    | .nothing => "-"
+    | .variables => "vars"
+    | .text s => encChars s
+  let chg := r.env.options.filter fun e => !(init.any fun i => i.1 == e.1 && i.2 == e.2)
+  s!"st={r.status} diag={bit r.diag} out={out} chg=[{showOpts chg}] params=[{showStrs r.env.params}]"
+
+def parseInit (t : String) : Option (List (List Char × Bool)) :=
+  (t.splitOn ";").mapM fun e =>
+    match e.splitOn "." with
+    | [n, b] => do pure (n.toList, ← b.toList.head? >>= parseBit)
+    | _ => none
+
 def hasSub (s pat : String) : Bool := (s.splitOn pat).length > 1
 
 def byDesign (o : String) : Bool :=
@@ -376,13 +401,13 @@ def runLine (line : String) : String :=
   | "T" :: p :: nm :: args =>
     (match p.toList.head? >>= parseBit, parseNames nm, args.mapM decChars with
      | some p, some nm0, some args =>
-       let nm := withModelLong nm0 (parseAlnum nm) args
+       let nm := withModelTables nm0 (parseAlnum nm) args
        specCompare p (showSet (Bespoke.setParse nm p args)) (showSet (Bespoke.setParse nm p (Bespoke.separateSO true args)))
      | _, _, _ => "bad-case\t-")
   | "H" :: nm :: args =>
     (match parseNames nm, args.mapM decChars with
      | some nm0, some args =>
-       let nm := withModelLong nm0 (parseAlnum nm) args
+       let nm := withModelTables nm0 (parseAlnum nm) args
        -- `--name=ARG` as the first argument is also rewritten to `--name ARG` (options that take an argument)
        let eqSplit : List (List Char) → List (List Char) := fun r =>
          match r with
@@ -401,6 +426,19 @@ def runLine (line : String) : String :=
   | "K" :: p :: st :: nm :: args =>
     (match p.toList.head? >>= parseBit, st.toInt?, parseNames nm, args.mapM decChars with
      | some p, some st, some nm, some args => specCompare p (showKill (Bespoke.killParse nm p st args)) (showKill (Bespoke.killParse nm p st (Bespoke.separateKill nm args)))
+     | _, _, _, _ => "bad-case\t-")
+  | "U" :: nm :: init :: p0 :: args =>
+    (match parseNames nm, parseInit init, (if p0 = "_" then some [] else (p0.splitOn ",").mapM decChars), args.mapM decChars with
+     | some nm0, some init, some params0, some args =>
+       let nm := withModelTables nm0 (parseAlnum nm) args
+       let env : Bespoke.SetEnv := { options := init, params := params0 }
+       let obs := showSetResult init (Bespoke.setMain nm env args)
+       let exp := showSetResult init (Bespoke.expect nm env args)
+       -- a malformed invocation: the Spec's prediction is compared with the REAL run (`=`); otherwise the
+       -- model's run must be what the reference reader expects
+       let spec := if Bespoke.malformed nm (Bespoke.getOpt init Bespoke.portableOpt) args then "=" ++ exp
+         else if obs = exp then "ok" else s!"FAIL:reference-reader-expects {exp}"
+       obs ++ "\t" ++ spec
      | _, _, _, _ => "bad-case\t-")
   | "B" :: _p :: _cmd :: _setup :: _probe :: rest => s!"n={(splitBar rest).length}\t-"
   | "E" :: _p :: _cmd :: _setup :: _probe :: _ => "n=1\t-"
